@@ -24,10 +24,31 @@ Section Data.
     all: unfold inv_data, dropped, job_inflight in *; cbn in *.
     all: destruct H6 as [l6 H6].
     all: try (split_and!; [done..|by eexists]).
+    all: bool_hyps; subst.
+    all: try (specialize (H5 eq_refl)).
     all: split_and!; try done; try lia; try (by eexists).
     all: try (intros HH; specialize (H5 HH)).
-    all: rewrite ?fmap_app, ?app_nil_r in *; cbn.
+    all: rewrite ?fmap_app, ?app_nil_r in *; cbn in *.
     all: try (by rewrite <- H5, <- ?(assoc_L (++))).
-    Show.
-  Admitted.
+    all: try (by rewrite <- (assoc_L (++))).
+    all: try (by intros [? [=]]).
+    all: try (intros HH; first [specialize (H3 HH)|specialize (H4 HH)]; lia).
+    all: try (by rewrite <- H6, <- (assoc_L (++)); eexists).
+    all: try (by rewrite <- H5, <- !(assoc_L (++)); eexists).
+    all: eexists; rewrite <- (assoc_L (++)); cbn; rewrite <- H5; reflexivity.
+  Qed.
+
+  Lemma reach_inv_data inputs ext tr s : run F f (init F inputs ext) tr = Some s -> inv_data inputs s.
+  Proof. apply run_invariant_all; [apply inv_data_init|apply step_inv_data]. Qed.
+
+  (* C12.1: outputs are the images of the inputs taken so far, in order, without loss or duplication *)
+  Theorem pipe_order inputs ext tr s :
+    run F f (init F inputs ext) tr = Some s ->
+    inputs = s.(taken) ++ s.(inp_rest) /\
+    (dropped s = false -> s.(delivered) ++ s.(pending) ++ job_inflight s f = f <$> s.(taken)) /\
+    (exists l, s.(delivered) ++ l = f <$> s.(taken)).
+  Proof.
+    intros Hr. destruct (reach_inv_data _ _ _ _ Hr) as (H1 & _ & _ & _ & H5 & H6).
+    done.
+  Qed.
 End Data.
